@@ -33,9 +33,15 @@ def windows(items, w, s):
     return [items[k:k + w] for k in range(0, len(items), s)]
 
 
+ENTRY_SPECS = [[['roll', 2, 1, [['to_list']]]], [['roll', 2, 2, [['to_list']]]], [['roll', 3, 2, [['to_list']]]], [['roll', 1, 2, [['to_list']]]]]
+ENTRY_OTHER = [['roll', 3, 1, [['count', True]]]]
+ENTRY_ITEMS = [[0, 1, 2, 3, 4], [10, 11, 12, 13]]
+
+
 def units(tier):
     g = 8 if tier == 'quick' else 10
     out = []
+    out.append({'fam': 'entry'})
     for w in range(1, g + 1):
         for s in range(1, g + 1):
             out.append({'fam': 'top', 'w': w, 's': s})
@@ -72,6 +78,12 @@ def units(tier):
 
 
 def cases(unit):
+    if unit.get('fam') == 'entry':
+        # the operator reached through the `sources=` entry point of with_store: two live sources share one store
+        for si in range(len(ENTRY_SPECS)):
+            for order in spaces.interleavings([len(ENTRY_ITEMS[0]), len(ENTRY_ITEMS[1])]):
+                yield {'fam': 'entry', 'spec': si, 'order': order}
+        return
     fam = unit['fam']
     if fam == 'top':
         w, s = unit['w'], unit['s']
@@ -153,6 +165,14 @@ def _close_order_differs(lts, log):
 
 
 def run_case(case, acc):
+    if case.get('fam') == 'entry':
+        specs = [ENTRY_SPECS[case['spec']], ENTRY_OTHER]
+        acc.evals += 1
+        acc.traces += 2
+        acc.events += len(case['order']) + 2
+        acc.count('sources_entry_point_runs')
+        acc.outcomes.add(fast_hash(repr(case)))
+        return [viol('entry|sources-entry-point-source-%d-windows-%s' % (k, kind), {'pipelines': specs, 'order': case['order'], 'expected': exp, 'observed': got, 'error': err}) for (k, kind, exp, got, err) in harness.sources_problems(specs, ENTRY_ITEMS, case['order'])][:1]
     fam = case['fam']
     big = case.get('w', 0) > 20 or len(case.get('order', [])) > 40
     ctx = opspecs.Ctx(not big)          # store snapshots at every event are only affordable for the small cases
